@@ -33,6 +33,8 @@ class Contract:
         self.per_spec = kw.pop("per_spec", {})      # wrapper-name substring -> dict of overrides/additions
         self.auto_inv = kw.pop("auto_inv", True)
         self.nonneg = kw.pop("nonneg", [])
+        self.unchecked = kw.pop("unchecked", [])    # arrays whose index obligations are NOT generated (listed as unverified in the evidence)
+        self.sums = kw.pop("sums", {})              # name -> (bound var, n expr, term expr): prefix sums with a proved monotonicity lemma
         if kw:
             raise TypeError("unknown contract fields %s" % list(kw))
 
@@ -167,6 +169,8 @@ class Unit:
         self.ev = Evaluator(func)
         self.ev.globals = dict(self.consts)
         self.ev.call_handler = self.handle_call
+        self.ev.assume_store_fits = True
+        self.ev.unchecked = set(self.c.unchecked)
         gh = spec.Ghosts()
         for g, (params, body) in self.c.ghost.items():
             gh.declare(g, params, body)
@@ -207,6 +211,12 @@ class Unit:
                 else:
                     st.vars[name] = Val(z3.Int(name), "opaque")
         self.init = st.fork()
+        for src in self.c.axioms:
+            st.assume(self.se.boolean(src, st, init=self.init))
+        for src in self.c.requires:
+            st.assume(self.se.boolean(src, st, init=self.init))
+        for name, (var, n_src, term_src) in self.c.sums.items():
+            self.declare_sum(name, var, n_src, term_src, st)
         for a, src in self.c.extents.items():
             if a not in st.arrs:
                 self.errors.append("contract names unknown array %s" % a)
@@ -214,12 +224,31 @@ class Unit:
             if src is None:
                 continue
             ev.extents[a] = self.se.term(src, st, init=self.init)
-        for src in self.c.axioms:
-            st.assume(self.se.boolean(src, st, init=self.init))
-        for src in self.c.requires:
-            st.assume(self.se.boolean(src, st, init=self.init))
         self.init = st.fork()
         return st
+
+    def declare_sum(self, name, var, n_src, term_src, st):
+        """ghost prefix sum S(0)=0, S(q+1)=S(q)+term(q) for 0<=q<n, plus the lemma that S is
+        non-decreasing on [0,n] -- the lemma is not assumed but proved here by induction:
+        obligations L.nonneg (every term >= 0 under the precondition) and L.step."""
+        ev = self.ev
+        self.se.ghosts.declare(name, ["x"], None)
+        S = sym.uf("ghost_" + name, sym.I, sym.I)
+        n = self.se.term(n_src, st, init=self.init)
+        q = z3.Int("q?%s" % name)
+        tq = self.se.term(term_src, st, init=self.init, bound={var: q})
+        tq = self.se.int(tq)
+        st.assume(S(0) == 0)
+        st.assume(z3.ForAll([q], z3.Implies(z3.And(0 <= q, q < n), S(q + 1) == S(q) + tq), patterns=[S(q + 1)]))
+        ev.loc_label = "lemma:" + name
+        ev.line = None
+        ev.oblige("L.nonneg", z3.ForAll([q], z3.Implies(z3.And(0 <= q, q < n), tq >= 0)), st,
+                  "every term of the prefix sum %s is non-negative under the precondition" % name)
+        a, b = z3.Int("a?%s" % name), z3.Int("b?%s" % name)
+        tb = z3.substitute(tq, (q, b))
+        step = z3.Implies(z3.And(0 <= a, a <= b, b < n, S(a) <= S(b), tb >= 0, S(b + 1) == S(b) + tb), S(a) <= S(b + 1))
+        ev.oblige("L.step", z3.ForAll([a, b], step), st, "induction step of: %s is non-decreasing" % name)
+        st.assume(z3.ForAll([a, b], z3.Implies(z3.And(0 <= a, a <= b, b <= n), S(a) <= S(b)), patterns=[z3.MultiPattern(S(a), S(b))]))
 
     # ---- calls (modular)
     def handle_call(self, ev, e, st):
